@@ -196,7 +196,7 @@ theorem slice_core (cs : List Nat) (hs : Scalars cs) (start end_ : Int)
 
 theorem sliceStr_encode (cs : List Nat) (hs : Scalars cs) (e st : Option Int) :
     sliceStr (encodeRunes cs) e st = encodeRunes (sliceList cs e st) := by
-  unfold sliceStr sliceList strLength
+  unfold sliceStr sliceOffsets sliceList strLength
   rw [runes_encode hs]
   have hl : (0 : Int) ≤ ((cs.length : Nat) : Int) := Int.natCast_nonneg _
   cases st with
@@ -209,5 +209,680 @@ theorem sliceStr_encode (cs : List Nat) (hs : Scalars cs) (e st : Option Int) :
     cases e with
     | none => exact slice_core cs hs _ _ h1 ⟨h1.2, Int.le_refl _⟩
     | some j => exact slice_core cs hs _ _ h1 (clamp_end_range j _ _ h1.1 h1.2)
+
+/-! ## rune boundaries of a valid string -/
+
+theorem boundsAux_encode : ∀ (cs : List Nat), Scalars cs → ∀ (fuel off b : Nat), (encodeRunes cs).length ≤ fuel →
+    b ∈ boundsAux fuel (encodeRunes cs) off → ∃ k, k ≤ cs.length ∧ b = off + blen cs k := by
+  intro cs
+  induction cs with
+  | nil =>
+    intro _ fuel off b _ hb
+    refine ⟨0, Nat.le_refl _, ?_⟩
+    cases fuel <;> simp [boundsAux, encodeRunes] at hb <;> simp [hb, blen_zero]
+  | cons c cs ih =>
+    intro hs fuel off b hf hb
+    rw [encodeRunes_cons] at hf hb
+    obtain ⟨b0, t, hbt⟩ := encode_cons_ne_nil c cs
+    have hd := decode_encode c (hs c (List.mem_cons_self ..)) (encodeRunes cs)
+    have hpos := encodeRune_length_pos c
+    rw [hbt] at hd
+    cases fuel with
+    | zero => simp only [List.length_append] at hf; omega
+    | succ fuel =>
+      rw [hbt] at hb
+      simp only [boundsAux, hd, List.mem_cons] at hb
+      have hw : max (encodeRune c).length 1 = (encodeRune c).length := by omega
+      rw [hw, ← hbt, List.drop_left' rfl] at hb
+      rcases hb with rfl | hb
+      · exact ⟨0, Nat.zero_le _, by simp [blen_zero]⟩
+      · obtain ⟨k, hk, rfl⟩ := ih hs.tail fuel _ b (by simp only [List.length_append] at hf; omega) hb
+        exact ⟨k + 1, by simpa using hk, by rw [blen_cons_succ]; omega⟩
+
+theorem isBoundary_encode (cs : List Nat) (hs : Scalars cs) (z : Int) (h : isBoundary (encodeRunes cs) z = true) :
+    ∃ k, k ≤ cs.length ∧ z = ((blen cs k : Nat) : Int) := by
+  unfold isBoundary boundaries at h
+  simp only [Bool.and_eq_true, decide_eq_true_eq, List.contains_iff_mem] at h
+  obtain ⟨k, hk, he⟩ := boundsAux_encode cs hs _ 0 _ (Nat.le_refl _) h.2
+  exact ⟨k, hk, by omega⟩
+
+/-! ## funcMatch on an answer satisfying matchesOK -/
+
+theorem blen_le_length (cs : List Nat) (k : Nat) : blen cs k ≤ (encodeRunes cs).length := by
+  by_cases h : k ≤ cs.length
+  · rw [← blen_all cs cs.length (Nat.le_refl _)]; exact blen_mono cs k _ h
+  · rw [blen_all cs k (by omega)]; exact Nat.le_refl _
+
+theorem goSlice_blen (cs : List Nat) (a b : Nat) (hab : a ≤ b) :
+    goSlice (encodeRunes cs) ((blen cs a : Nat) : Int) ((blen cs b : Nat) : Int)
+      = some (encodeRunes ((cs.drop a).take (b - a))) := by
+  unfold goSlice
+  have h1 := blen_mono cs a b hab
+  have h2 := blen_le_length cs b
+  rw [if_pos ⟨by omega, by omega, by omega⟩]
+  simp only [Int.toNat_natCast]
+  rw [slice_blen cs a b hab]
+
+theorem runeCountTo_blen (cs : List Nat) (hs : Scalars cs) (k : Nat) (hk : k ≤ cs.length) :
+    runeCountTo (encodeRunes cs) ((blen cs k : Nat) : Int) = some ((k : Nat) : Int) := by
+  unfold runeCountTo goSlice
+  have h2 := blen_le_length cs k
+  rw [if_pos ⟨by omega, by omega, by omega⟩]
+  simp only [Int.toNat_natCast, Int.toNat_zero, List.drop_zero, Nat.sub_zero]
+  rw [take_blen, runes_encode (hs.take k), List.length_take, Nat.min_eq_left hk]
+
+/-- capture `c` is an absent group, or describes the code points `[k0, k1)` of `cs` -/
+def CapOK (cs : List Nat) (c : Cap) : Prop :=
+  (c.string = none ∧ c.offset = -1 ∧ c.length = 0) ∨
+  ∃ k0 k1 : Nat, k0 ≤ k1 ∧ k1 ≤ cs.length ∧ c.offset = ((k0 : Nat) : Int) ∧ c.length = ((k1 : Nat) : Int) - ((k0 : Nat) : Int) ∧
+    c.string = some (encodeRunes ((cs.drop k0).take (k1 - k0)))
+
+/-- match `m` describes the code points `[k0, k1)` of `cs` -/
+def Spans (cs : List Nat) (m : Match) (k0 k1 : Nat) : Prop :=
+  k0 ≤ k1 ∧ k1 ≤ cs.length ∧ m.offset = ((k0 : Nat) : Int) ∧ m.length = ((k1 : Nat) : Int) - ((k0 : Nat) : Int) ∧
+    m.string = encodeRunes ((cs.drop k0).take (k1 - k0)) ∧ ∀ c ∈ m.captures, CapOK cs c
+
+/-- successive matches span ordered, non-overlapping code-point ranges starting at or after `p` -/
+inductive Chain (cs : List Nat) : Nat → List Match → Prop
+  | nil (p : Nat) : Chain cs p []
+  | cons {p k0 k1 : Nat} {m : Match} {ms : List Match} :
+      p ≤ k0 → Spans cs m k0 k1 → Chain cs k1 ms → Chain cs p (m :: ms)
+
+def nameOf (n : Bytes) : Option Bytes := if n.isEmpty then none else some n
+
+theorem group_positions (cs : List Nat) (hs : Scalars cs) (a b : Int) (h0 : 0 ≤ a)
+    (h : groupOK (encodeRunes cs) (a, b) = true) :
+    ∃ k0 k1 : Nat, k0 ≤ k1 ∧ k1 ≤ cs.length ∧ a = ((blen cs k0 : Nat) : Int) ∧ b = ((blen cs k1 : Nat) : Int) := by
+  unfold groupOK at h
+  simp only [Bool.or_eq_true, Bool.and_eq_true, beq_iff_eq, decide_eq_true_eq] at h
+  rcases h with ⟨h1, _⟩ | ⟨⟨ha, hb⟩, hab⟩
+  · omega
+  · obtain ⟨k0, hk0, rfl⟩ := isBoundary_encode cs hs a ha
+    obtain ⟨k1, hk1, rfl⟩ := isBoundary_encode cs hs b hb
+    exact ⟨k0, k1, blen_le_inv cs k0 k1 hk0 hk1 (by omega), hk1, rfl, rfl⟩
+
+theorem mkCap_ok (cs : List Nat) (hs : Scalars cs) (n : Bytes) (a b : Int)
+    (h : groupOK (encodeRunes cs) (a, b) = true) :
+    ∃ c, mkCap (encodeRunes cs) n a b = some c ∧ CapOK cs c ∧ c.name = nameOf n := by
+  by_cases ha : a < 0
+  · refine ⟨_, by unfold mkCap; rw [if_pos ha], Or.inl ⟨rfl, rfl, rfl⟩, rfl⟩
+  · obtain ⟨k0, k1, h01, hk1, rfl, rfl⟩ := group_positions cs hs a b (by omega) h
+    have hc : mkCap (encodeRunes cs) n ((blen cs k0 : Nat) : Int) ((blen cs k1 : Nat) : Int) =
+        some { name := nameOf n, offset := ((k0 : Nat) : Int), length := ((k1 : Nat) : Int) - ((k0 : Nat) : Int),
+               string := some (encodeRunes ((cs.drop k0).take (k1 - k0))) } := by
+      unfold mkCap
+      rw [if_neg ha, runeCountTo_blen cs hs k0 (by omega), runeCountTo_blen cs hs k1 hk1, goSlice_blen cs k0 k1 h01]
+      rfl
+    exact ⟨_, hc, Or.inr ⟨k0, k1, h01, hk1, rfl, rfl, rfl⟩, rfl⟩
+
+theorem mkCaps_ok (cs : List Nat) (hs : Scalars cs) : ∀ (ps : List (Int × Int)) (ns : List Bytes),
+    ns.length = ps.length → ps.all (groupOK (encodeRunes cs)) = true →
+    ∃ caps, mkCaps (encodeRunes cs) ns ps = some caps ∧ (∀ c ∈ caps, CapOK cs c) ∧ caps.map (·.name) = ns.map nameOf := by
+  intro ps
+  induction ps with
+  | nil =>
+    intro ns hl _
+    have : ns = [] := by simpa using hl
+    subst this
+    exact ⟨[], by simp [mkCaps], by simp, rfl⟩
+  | cons p ps ih =>
+    intro ns hl hall
+    obtain ⟨a, b⟩ := p
+    cases ns with
+    | nil => simp at hl
+    | cons n ns =>
+      simp only [List.all_cons, Bool.and_eq_true] at hall
+      obtain ⟨c, hc, hok, hn⟩ := mkCap_ok cs hs n a b hall.1
+      obtain ⟨caps, hcaps, hoks, hns⟩ := ih ns (by simpa using hl) hall.2
+      refine ⟨c :: caps, by simp only [mkCaps, hc, hcaps], ?_, by simp [hn, hns]⟩
+      intro x hx
+      rcases List.mem_cons.mp hx with rfl | hx
+      · exact hok
+      · exact hoks x hx
+
+theorem pairs_length : ∀ x : List Int, (pairs x).length = x.length / 2
+  | [] => rfl
+  | [_] => by simp [pairs]
+  | a :: b :: rest => by
+    simp only [pairs, List.length_cons, pairs_length rest]
+    omega
+
+theorem mkMatch_ok (cs : List Nat) (hs : Scalars cs) (names : List Bytes) (x : List Int)
+    (h : matchOK (encodeRunes cs) names x = true) :
+    ∃ m k0 k1 rest, x = ((blen cs k0 : Nat) : Int) :: ((blen cs k1 : Nat) : Int) :: rest ∧
+      mkMatch (encodeRunes cs) names x = some m ∧ Spans cs m k0 k1 ∧ m.captures.map (·.name) = capNames names := by
+  unfold matchOK at h
+  match x, h with
+  | [], h => simp at h
+  | [_], h => simp at h
+  | a :: b :: rest, h =>
+    simp only [Bool.and_eq_true, beq_iff_eq, decide_eq_true_eq, pairs, List.all_cons, List.length_cons] at h
+    obtain ⟨⟨⟨⟨_, _⟩, hn⟩, hg, hgs⟩, h0⟩ := h
+    obtain ⟨k0, k1, h01, hk1, rfl, rfl⟩ := group_positions cs hs a b h0 hg
+    have hlen : names.tail.length = (pairs rest).length := by
+      rw [pairs_length, List.length_tail, hn]; omega
+    obtain ⟨caps, hcaps, hoks, hns⟩ := mkCaps_ok cs hs (pairs rest) names.tail hlen hgs
+    have hm : mkMatch (encodeRunes cs) names (((blen cs k0 : Nat) : Int) :: ((blen cs k1 : Nat) : Int) :: rest) =
+        some { offset := ((k0 : Nat) : Int), length := ((k1 : Nat) : Int) - ((k0 : Nat) : Int),
+               string := encodeRunes ((cs.drop k0).take (k1 - k0)), captures := caps } := by
+      simp only [mkMatch, pairs, hcaps, runeCountTo_blen cs hs k0 (by omega), runeCountTo_blen cs hs k1 hk1,
+        goSlice_blen cs k0 k1 h01]
+    exact ⟨_, k0, k1, rest, rfl, hm, ⟨h01, hk1, rfl, rfl, rfl, hoks⟩, by rw [hns]; rfl⟩
+
+theorem mkMatches_ok (cs : List Nat) (hs : Scalars cs) (names : List Bytes) : ∀ (raw : Raw) (kp : Nat),
+    kp ≤ cs.length → raw.all (matchOK (encodeRunes cs) names) = true →
+    orderedFrom ((blen cs kp : Nat) : Int) raw = true →
+    ∃ ms, mkMatches (encodeRunes cs) names raw = some ms ∧ Chain cs kp ms ∧
+      ∀ m ∈ ms, m.captures.map (·.name) = capNames names := by
+  intro raw
+  induction raw with
+  | nil => intro kp _ _ _; exact ⟨[], rfl, Chain.nil kp, by simp⟩
+  | cons x xs ih =>
+    intro kp hkp hall hord
+    simp only [List.all_cons, Bool.and_eq_true] at hall
+    obtain ⟨m, k0, k1, rest, rfl, hm, hsp, hnm⟩ := mkMatch_ok cs hs names x hall.1
+    simp only [orderedFrom, Bool.and_eq_true, decide_eq_true_eq] at hord
+    have hp : kp ≤ k0 := blen_le_inv cs kp k0 hkp (by have := hsp.1; have := hsp.2.1; omega) (by omega)
+    obtain ⟨ms, hms, hch, hnms⟩ := ih k1 hsp.2.1 hall.2 hord.2
+    refine ⟨m :: ms, by simp only [mkMatches, hm, hms], Chain.cons hp hsp hch, ?_⟩
+    intro y hy
+    rcases List.mem_cons.mp hy with rfl | hy
+    · exact hnm
+    · exact hnms y hy
+
+/-- packaging: under `matchesOK`, the subject is the encoding of its code points, funcMatch does not
+    panic and its matches form an ordered chain of code-point ranges -/
+theorem matches_repr (s : Bytes) (names : List Bytes) (raw : Raw) (h : matchesOK s names raw = true) :
+    ∃ cs ms, Scalars cs ∧ encodeRunes cs = s ∧ runes s = cs ∧ mkMatches s names raw = some ms ∧ Chain cs 0 ms ∧
+      ∀ m ∈ ms, m.captures.map (·.name) = capNames names := by
+  unfold matchesOK at h
+  simp only [Bool.and_eq_true] at h
+  obtain ⟨⟨hv, hall⟩, hord⟩ := h
+  obtain ⟨hs, he⟩ := valid_repr s hv
+  rw [← he] at hall
+  have hord' : orderedFrom ((blen (runes s) 0 : Nat) : Int) raw = true := by rw [blen_zero]; exact hord
+  obtain ⟨ms, hms, hch, hnm⟩ := mkMatches_ok (runes s) hs names raw 0 (Nat.zero_le _) hall hord'
+  rw [he] at hms
+  exact ⟨runes s, ms, hs, he, rfl, hms, hch, hnm⟩
+
+theorem chain_mem {cs : List Nat} {p : Nat} {ms : List Match} (h : Chain cs p ms) :
+    ∀ m ∈ ms, ∃ k0 k1, Spans cs m k0 k1 := by
+  induction h with
+  | nil p => intro m hm; simp at hm
+  | cons _ hsp _ ih =>
+    intro y hy
+    rcases List.mem_cons.mp hy with rfl | hy
+    · exact ⟨_, _, hsp⟩
+    · exact ih y hy
+
+/-! ## code-point slices by natural-number bounds -/
+
+theorem sliceList_nat {α : Type} (cs : List α) (k0 k1 : Nat) (h01 : k0 ≤ k1) (h1 : k1 ≤ cs.length) :
+    sliceList cs (some ((k1 : Nat) : Int)) (some ((k0 : Nat) : Int)) = (cs.drop k0).take (k1 - k0) := by
+  unfold sliceList
+  simp only []
+  rw [clamp_id _ 0 _ (by omega) (by omega) (by omega), clamp_id _ _ _ (by omega) (by omega) (by omega)]
+  simp only [Int.toNat_natCast]
+
+/-- `.next` of the splits/sub state: `null` before the first match (position 0), else the position -/
+def NextIs (next : Option Int) (p : Nat) : Prop := next = some ((p : Nat) : Int) ∨ (next = none ∧ p = 0)
+
+theorem sliceList_next {α : Type} (cs : List α) (next : Option Int) (p k0 : Nat) (hn : NextIs next p)
+    (hp : p ≤ k0) (h0 : k0 ≤ cs.length) :
+    sliceList cs (some ((k0 : Nat) : Int)) next = (cs.drop p).take (k0 - p) := by
+  rcases hn with rfl | ⟨rfl, rfl⟩
+  · exact sliceList_nat cs p k0 hp h0
+  · unfold sliceList
+    simp only []
+    rw [clamp_id _ _ _ (by omega) (by omega) (by omega)]
+    simp
+
+theorem sliceList_tail {α : Type} (cs : List α) (next : Option Int) (p : Nat) (hn : NextIs next p)
+    (hp : p ≤ cs.length) : sliceList cs none next = cs.drop p := by
+  rcases hn with rfl | ⟨rfl, rfl⟩
+  · unfold sliceList
+    simp only []
+    rw [clamp_id _ 0 _ (by omega) (by omega) (by omega)]
+    simp only [Int.toNat_natCast]
+    exact List.take_of_length_le (by simp)
+  · unfold sliceList
+    simp
+
+theorem spans_slice (cs : List Nat) (hs : Scalars cs) (m : Match) (k0 k1 : Nat) (h : Spans cs m k0 k1) :
+    sliceStr (encodeRunes cs) (some (m.offset + m.length)) (some m.offset) = m.string := by
+  obtain ⟨h01, h1, ho, hl, hstr, _⟩ := h
+  have : m.offset + m.length = ((k1 : Nat) : Int) := by omega
+  rw [sliceStr_encode cs hs, this, ho, sliceList_nat cs k0 k1 h01 h1, hstr]
+
+theorem drop_split3 {α : Type} (cs : List α) (p k0 k1 : Nat) (h0 : p ≤ k0) (h1 : k0 ≤ k1) :
+    cs.drop p = (cs.drop p).take (k0 - p) ++ ((cs.drop k0).take (k1 - k0) ++ cs.drop k1) := by
+  have e1 : (cs.drop p).drop (k0 - p) = cs.drop k0 := by rw [List.drop_drop]; congr 1; omega
+  have e2 : (cs.drop k0).drop (k1 - k0) = cs.drop k1 := by rw [List.drop_drop]; congr 1; omega
+  rw [← e2, List.take_append_drop, ← e1, List.take_append_drop]
+
+/-! ## splits -/
+
+theorem interleave_single (p : Bytes) : interleave [p] [] = p := by simp [interleave]
+
+theorem splits_chain (cs : List Nat) (hs : Scalars cs) {p : Nat} {ms : List Match} (h : Chain cs p ms) :
+    ∀ next, NextIs next p → p ≤ cs.length →
+      interleave (splitsAux (encodeRunes cs) next ms) (ms.map (·.string)) = encodeRunes (cs.drop p) := by
+  induction h with
+  | nil p =>
+    intro next hn hp
+    simp only [splitsAux, List.map_nil, interleave_single]
+    rw [sliceStr_encode cs hs, sliceList_tail cs next p hn hp]
+  | @cons p k0 k1 m ms hp hsp _ ih =>
+    intro next hn _
+    obtain ⟨h01, h1, ho, hl, hstr, _⟩ := hsp
+    have hnext : m.offset + m.length = ((k1 : Nat) : Int) := by omega
+    simp only [splitsAux, List.map_cons, interleave]
+    rw [ih (some (m.offset + m.length)) (Or.inl (by rw [hnext])) h1, sliceStr_encode cs hs, ho,
+      sliceList_next cs next p k0 hn hp (by omega), hstr, List.append_assoc, ← encodeRunes_append,
+      ← encodeRunes_append, ← drop_split3 cs p k0 k1 hp h01]
+
+theorem splitsAux_length (s : Bytes) : ∀ (ms : List Match) (next : Option Int),
+    (splitsAux s next ms).length = ms.length + 1 := by
+  intro ms
+  induction ms with
+  | nil => intro next; rfl
+  | cons m ms ih => intro next; simp [splitsAux, ih]
+
+/-! ## sub / gsub -/
+
+theorem runes_eq_nil (s : Bytes) (h : runes s = []) : s = [] := by
+  cases s with
+  | nil => rfl
+  | cons b t => simp [runes, runesAux] at h
+
+theorem sliceStr_none_none (s : Bytes) : sliceStr s none none = s := by
+  unfold sliceStr sliceOffsets
+  simp only [Int.lt_irrefl, if_false]
+  by_cases h : (0 : Int) < ((strLength s : Nat) : Int)
+  · rw [if_pos h]
+    have : runeStart s (0 : Int).toNat = 0 := by simp [runeStart, runeStartAux]
+    rw [this]
+    simp
+  · have h0 : strLength s = 0 := by omega
+    have : s = [] := runes_eq_nil s (List.length_eq_zero_iff.mp h0)
+    subst this
+    simp
+
+theorem subFold_single (s : Bytes) : ∀ (ms : List Match) (os : List Bytes) (r0 : Bytes) (next : Option Int),
+    ms.length = os.length →
+    subFinish s (subFold s ([r0], next) (ms.zip (os.map fun o => [o]))) = [r0 ++ interleave (splitsAux s next ms) os] := by
+  intro ms
+  induction ms with
+  | nil =>
+    intro os r0 next hl
+    have : os = [] := by simpa using hl.symm
+    subst this
+    simp [subFold, subFinish, splitsAux, interleave]
+  | cons m ms ih =>
+    intro os r0 next hl
+    cases os with
+    | nil => simp at hl
+    | cons o os =>
+      simp only [List.map_cons, List.zip_cons_cons, subFold, mergeOut]
+      rw [ih os _ _ (by simpa using hl)]
+      simp [splitsAux, interleave, List.append_assoc]
+
+/-- a replacement with exactly one (string) output per match: `sub` is the interleaving of the
+    pieces of `splits` with the replacement outputs -/
+theorem subCore_single (s : Bytes) (ms : List Match) (os : List Bytes) (hl : ms.length = os.length) :
+    subCore s (ms.zip (os.map fun o => [o])) = [interleave (splits s ms) os] := by
+  unfold subCore splits
+  cases ms with
+  | nil =>
+    have : os = [] := by simpa using hl.symm
+    subst this
+    simp [subFold, subFinish, splitsAux, interleave, sliceStr_none_none]
+  | cons m ms =>
+    cases os with
+    | nil => simp at hl
+    | cons o os =>
+      simp only [List.map_cons, List.zip_cons_cons, subFold, mergeOut]
+      rw [subFold_single s ms os _ _ (by simpa using hl)]
+      simp [splitsAux, interleave, List.append_assoc]
+
+theorem map_rep_eq_zip (ms : List Match) (rep : List (Bytes × JV) → List Bytes) (f : Match → Bytes)
+    (h : ∀ m ∈ ms, rep (capturesKvs m.captures) = [f m]) :
+    ms.map (fun m => (m, rep (capturesKvs m.captures))) = ms.zip ((ms.map f).map fun o => [o]) := by
+  induction ms with
+  | nil => rfl
+  | cons m ms ih =>
+    simp only [List.map_cons, List.zip_cons_cons]
+    rw [h m (List.mem_cons_self ..), ih (fun x hx => h x (List.mem_cons_of_mem _ hx))]
+
+theorem subFinish_ne_nil (s : Bytes) (st : List Bytes × Option Int) : subFinish s st ≠ [] := by
+  unfold subFinish
+  split
+  · simp
+  · rename_i h; simpa using h
+
+/-! ## `_captures` -/
+
+theorem bcmp_refl : ∀ a : Bytes, Bytes.cmp a a = .eq
+  | [] => rfl
+  | a :: as => by
+    simp only [Bytes.cmp]
+    have : ¬ a < a := UInt8.lt_irrefl a
+    simp [this, bcmp_refl as]
+
+theorem bcmp_eq : ∀ a b : Bytes, Bytes.cmp a b = .eq → a = b
+  | [], [], _ => rfl
+  | [], _ :: _, h => by simp [Bytes.cmp] at h
+  | _ :: _, [], h => by simp [Bytes.cmp] at h
+  | a :: as, b :: bs, h => by
+    simp only [Bytes.cmp] at h
+    split at h
+    · cases h
+    · split at h
+      · cases h
+      · rename_i h1 h2
+        have : a = b := UInt8.le_antisymm (UInt8.not_lt.mp h2) (UInt8.not_lt.mp h1)
+        rw [this, bcmp_eq as bs h]
+
+theorem kvLookup_kvInsert (k n : Bytes) (v : JV) : ∀ l : List (Bytes × JV),
+    kvLookup k (kvInsert n v l) = if k = n then some v else kvLookup k l := by
+  intro l
+  induction l with
+  | nil => simp [kvInsert, kvLookup]
+  | cons kv rest ih =>
+    obtain ⟨k', v'⟩ := kv
+    simp only [kvInsert]
+    split
+    · simp [kvLookup]
+    · rename_i he
+      have := bcmp_eq n k' he
+      subst this
+      by_cases hk : k = n
+      · simp [kvLookup, hk]
+      · simp [kvLookup, hk]
+    · rename_i hg
+      by_cases hk : k = n
+      · subst hk
+        have hne : k ≠ k' := by
+          intro e; subst e; rw [bcmp_refl] at hg; cases hg
+        simp [kvLookup, hne, ih]
+      · simp [kvLookup, hk, ih]
+
+/-- fold step of funcCaptures, seen through `kvLookup k` -/
+def lastNamedFrom (k : Bytes) (acc : Option JV) (caps : List Cap) : Option JV :=
+  caps.foldl (fun acc c => if c.name = some k then some (jOptStr c.string) else acc) acc
+
+theorem capturesFold_lookup (k : Bytes) : ∀ (caps : List Cap) (acc : List (Bytes × JV)),
+    kvLookup k (caps.foldl capStep acc) = lastNamedFrom k (kvLookup k acc) caps := by
+  intro caps
+  induction caps with
+  | nil => intro acc; rfl
+  | cons c caps ih =>
+    intro acc
+    simp only [List.foldl_cons, lastNamedFrom]
+    rw [ih]
+    unfold lastNamedFrom
+    congr 1
+    unfold capStep
+    cases hn : c.name with
+    | none => simp
+    | some n =>
+      simp only [kvLookup_kvInsert, Option.some.injEq]
+      by_cases h : k = n
+      · simp [h]
+      · have : ¬ n = k := fun e => h e.symm
+        simp [h, this]
+
+theorem capturesKvs_lookup (k : Bytes) (caps : List Cap) :
+    kvLookup k (capturesKvs caps) = lastNamedFrom k none caps := by
+  unfold capturesKvs
+  rw [capturesFold_lookup]
+  rfl
+
+theorem lastNamedFrom_none (k : Bytes) : ∀ (caps : List Cap) (acc : Option JV),
+    (∀ c ∈ caps, c.name ≠ some k) → lastNamedFrom k acc caps = acc := by
+  intro caps
+  induction caps with
+  | nil => intro acc _; rfl
+  | cons c caps ih =>
+    intro acc h
+    simp only [lastNamedFrom, List.foldl_cons]
+    rw [if_neg (h c (List.mem_cons_self ..))]
+    exact ih acc (fun x hx => h x (List.mem_cons_of_mem _ hx))
+
+theorem lastNamedFrom_isSome (k : Bytes) : ∀ (caps : List Cap) (acc : Option JV),
+    (lastNamedFrom k acc caps).isSome = true ↔ (acc.isSome = true ∨ ∃ c ∈ caps, c.name = some k) := by
+  intro caps
+  induction caps with
+  | nil => intro acc; simp [lastNamedFrom]
+  | cons c caps ih =>
+    intro acc
+    simp only [lastNamedFrom, List.foldl_cons]
+    have := ih (if c.name = some k then some (jOptStr c.string) else acc)
+    simp only [lastNamedFrom] at this
+    rw [this]
+    by_cases h : c.name = some k
+    · simp [h]
+    · simp [h]
+
+theorem lastNamedFrom_last (k : Bytes) (pre : List Cap) (c : Cap) (post : List Cap) (acc : Option JV)
+    (hc : c.name = some k) (hpost : ∀ x ∈ post, x.name ≠ some k) :
+    lastNamedFrom k acc (pre ++ c :: post) = some (jOptStr c.string) := by
+  simp only [lastNamedFrom, List.foldl_append, List.foldl_cons, hc, if_true]
+  exact lastNamedFrom_none k post _ hpost
+
+/-! ## remaining facts used by Props/C14.lean -/
+
+theorem Scalars.sliceList {cs : List Nat} (h : Scalars cs) (e st : Option Int) : Scalars (sliceList cs e st) := by
+  unfold Regex.sliceList
+  exact (h.drop _).take _
+
+theorem slice_runes (cs : List Nat) (hs : Scalars cs) (e st : Option Int) :
+    runes (sliceStr (encodeRunes cs) e st) = sliceList cs e st := by
+  rw [sliceStr_encode cs hs, runes_encode (hs.sliceList e st)]
+
+theorem offsets_core (cs : List Nat) (hs : Scalars cs) (start end_ : Int)
+    (h1 : 0 ≤ start ∧ start ≤ ((cs.length : Nat) : Int)) (h2 : start ≤ end_ ∧ end_ ≤ ((cs.length : Nat) : Int)) :
+    (if start < ((cs.length : Nat) : Int) then runeStart (encodeRunes cs) start.toNat else (encodeRunes cs).length)
+      ≤ (if end_ < ((cs.length : Nat) : Int) then runeStart (encodeRunes cs) end_.toNat else (encodeRunes cs).length) ∧
+    (if end_ < ((cs.length : Nat) : Int) then runeStart (encodeRunes cs) end_.toNat else (encodeRunes cs).length)
+      ≤ (encodeRunes cs).length := by
+  obtain ⟨a, rfl⟩ := Int.eq_ofNat_of_zero_le h1.1
+  obtain ⟨b, rfl⟩ := Int.eq_ofNat_of_zero_le (Int.le_trans h1.1 h2.1)
+  simp only [Int.toNat_natCast]
+  rw [offset_encode cs hs a (by omega), offset_encode cs hs b (by omega)]
+  exact ⟨blen_mono cs a b (by omega), blen_le_length cs b⟩
+
+theorem sliceOffsets_ok (cs : List Nat) (hs : Scalars cs) (e st : Option Int) :
+    (sliceOffsets (encodeRunes cs) e st).1 ≤ (sliceOffsets (encodeRunes cs) e st).2 ∧
+    (sliceOffsets (encodeRunes cs) e st).2 ≤ (encodeRunes cs).length := by
+  unfold sliceOffsets strLength
+  rw [runes_encode hs]
+  have hl : (0 : Int) ≤ ((cs.length : Nat) : Int) := Int.natCast_nonneg _
+  cases st with
+  | none =>
+    cases e with
+    | none => exact offsets_core cs hs _ _ ⟨Int.le_refl _, hl⟩ ⟨hl, Int.le_refl _⟩
+    | some j => exact offsets_core cs hs _ _ ⟨Int.le_refl _, hl⟩ (clamp_end_range j _ _ (Int.le_refl _) hl)
+  | some i =>
+    have h1 := clamp_start_range i _ hl
+    cases e with
+    | none => exact offsets_core cs hs _ _ h1 ⟨h1.2, Int.le_refl _⟩
+    | some j => exact offsets_core cs hs _ _ h1 (clamp_end_range j _ _ h1.1 h1.2)
+
+theorem runes_encodeRune (c : Nat) (h : isScalar c = true) : runes (encodeRune c) = [c] := by
+  have := runes_encode (cs := [c]) (fun x hx => by simp at hx; subst hx; exact h)
+  simpa [encodeRunes] using this
+
+theorem indexStr_eq (s : Bytes) (i : Int) : indexStr s i = (indexList (runes s) i).map encodeRune := by
+  unfold indexStr indexList
+  simp only []
+  split
+  · cases (runes s)[(clampIndex i (-1) ((runes s).length : Nat)).toNat]? <;> rfl
+  · rfl
+
+theorem indexList_mem {α : Type} (cs : List α) (i : Int) (c : α) (h : indexList cs i = some c) : c ∈ cs := by
+  unfold indexList at h
+  simp only [] at h
+  split at h
+  · exact List.mem_of_getElem? h
+  · cases h
+
+theorem mkMatches_length (s : Bytes) (names : List Bytes) : ∀ (raw : Raw) (ms : List Match),
+    mkMatches s names raw = some ms → ms.length = raw.length := by
+  intro raw
+  induction raw with
+  | nil => intro ms h; simp [mkMatches] at h; subst h; rfl
+  | cons x xs ih =>
+    intro ms h
+    cases hm : mkMatch s names x with
+    | none => simp [mkMatches, hm] at h
+    | some m =>
+      cases hms : mkMatches s names xs with
+      | none => simp [mkMatches, hm, hms] at h
+      | some ms' =>
+        simp [mkMatches, hm, hms] at h
+        subst h
+        simp [ih ms' hms]
+
+theorem mem_indicesList (vs xs : List Nat) (p : Nat) :
+    p ∈ indicesList vs xs ↔ xs ≠ [] ∧ p + xs.length ≤ vs.length ∧ (vs.drop p).take xs.length = xs := by
+  unfold indicesList
+  by_cases hx : xs = []
+  · subst hx; simp
+  · have : xs.isEmpty = false := by cases xs <;> simp_all
+    rw [this]
+    simp only [Bool.false_eq_true, if_false, List.mem_filter, List.mem_range, beq_iff_eq]
+    constructor
+    · rintro ⟨h1, h2⟩
+      exact ⟨hx, by omega, h2⟩
+    · rintro ⟨_, h1, h2⟩
+      have : 0 < xs.length := List.length_pos_iff.mpr hx
+      exact ⟨by omega, h2⟩
+
+theorem indicesList_sorted (vs xs : List Nat) : (indicesList vs xs).Pairwise (· < ·) := by
+  unfold indicesList
+  split
+  · exact List.Pairwise.nil
+  · exact List.Pairwise.filter _ List.pairwise_lt_range
+
+/-- the engine-level description of `(?<zz>RE)`: group 1 is the whole match and is the only group
+    named `zz` -/
+def wrappedBy (zz : Bytes) (names : List Bytes) (raw : Raw) : Prop :=
+  zz ≠ [] ∧ (∃ n0 ns, names = n0 :: zz :: ns ∧ zz ∉ ns) ∧
+  ∀ x ∈ raw, ∃ a b rest, x = a :: b :: a :: b :: rest
+
+theorem mkCap_name (s n : Bytes) (a b : Int) (c : Cap) (h : mkCap s n a b = some c) : c.name = nameOf n := by
+  unfold mkCap at h
+  by_cases ha : a < 0
+  · rw [if_pos ha] at h; cases h; rfl
+  · rw [if_neg ha] at h
+    split at h
+    · cases h; rfl
+    · cases h
+
+theorem mkCaps_names (s : Bytes) : ∀ (ns : List Bytes) (ps : List (Int × Int)) (caps : List Cap),
+    mkCaps s ns ps = some caps → ∀ c ∈ caps, ∃ n ∈ ns, c.name = nameOf n := by
+  intro ns ps
+  induction ps generalizing ns with
+  | nil => intro caps h; simp [mkCaps] at h; subst h; simp
+  | cons p ps ih =>
+    intro caps h
+    obtain ⟨a, b⟩ := p
+    cases ns with
+    | nil => simp [mkCaps] at h
+    | cons n ns =>
+      cases hc : mkCap s n a b with
+      | none => simp [mkCaps, hc] at h
+      | some c0 =>
+        cases hcs : mkCaps s ns ps with
+        | none => simp [mkCaps, hc, hcs] at h
+        | some cs0 =>
+          simp [mkCaps, hc, hcs] at h
+          subst h
+          intro c hcm
+          rcases List.mem_cons.mp hcm with rfl | hcm
+          · exact ⟨n, List.mem_cons_self .., mkCap_name s n a b c hc⟩
+          · obtain ⟨n', hn', hnm⟩ := ih ns cs0 hcs c hcm
+            exact ⟨n', List.mem_cons_of_mem _ hn', hnm⟩
+
+theorem mkMatch_wrapped (s : Bytes) (zz n0 : Bytes) (ns : List Bytes) (a b : Int) (rest : List Int) (m : Match)
+    (hz : zz ≠ []) (hns : zz ∉ ns) (h : mkMatch s (n0 :: zz :: ns) (a :: b :: a :: b :: rest) = some m) :
+    ∃ c cs, m.captures = c :: cs ∧ c.name = some zz ∧ c.string = some m.string ∧ ∀ x ∈ cs, x.name ≠ some zz := by
+  simp only [mkMatch, pairs, List.tail_cons, mkCaps] at h
+  cases hc : mkCap s zz a b with
+  | none => simp [hc] at h
+  | some c =>
+    cases hcs : mkCaps s ns (pairs rest) with
+    | none => simp [hc, hcs] at h
+    | some cs =>
+      cases hoa : runeCountTo s a with
+      | none => simp [hc, hcs, hoa] at h
+      | some oa =>
+        cases hob : runeCountTo s b with
+        | none => simp [hc, hcs, hoa, hob] at h
+        | some ob =>
+          cases hstr : goSlice s a b with
+          | none => simp [hc, hcs, hoa, hob, hstr] at h
+          | some str =>
+            simp [hc, hcs, hoa, hob, hstr] at h
+            subst h
+            have ha : ¬ a < 0 := by
+              intro hneg
+              unfold runeCountTo goSlice at hoa
+              rw [if_neg (by omega)] at hoa
+              cases hoa
+            have hzn : nameOf zz = some zz := by
+              unfold nameOf
+              cases zz with
+              | nil => exact absurd rfl hz
+              | cons _ _ => rfl
+            refine ⟨c, cs, rfl, ?_, ?_, ?_⟩
+            · unfold mkCap at hc
+              rw [if_neg ha, hoa, hob, hstr] at hc
+              cases hc
+              exact hzn
+            · unfold mkCap at hc
+              rw [if_neg ha, hoa, hob, hstr] at hc
+              cases hc
+              rfl
+            · intro x hx hxn
+              obtain ⟨n, hn, hnm⟩ := mkCaps_names s ns (pairs rest) cs hcs x hx
+              rw [hxn] at hnm
+              unfold nameOf at hnm
+              split at hnm
+              · cases hnm
+              · cases hnm; exact hns hn
+
+theorem mkMatches_wrapped (s : Bytes) (zz : Bytes) (names : List Bytes) : ∀ (raw : Raw) (ms : List Match),
+    wrappedBy zz names raw → mkMatches s names raw = some ms →
+    ∀ m ∈ ms, ∃ c cs, m.captures = c :: cs ∧ c.name = some zz ∧ c.string = some m.string ∧ ∀ x ∈ cs, x.name ≠ some zz := by
+  intro raw
+  induction raw with
+  | nil => intro ms _ h; simp [mkMatches] at h; subst h; simp
+  | cons x xs ih =>
+    intro ms hw h
+    obtain ⟨hz, ⟨n0, ns, hnames, hns⟩, hall⟩ := hw
+    cases hm : mkMatch s names x with
+    | none => simp [mkMatches, hm] at h
+    | some m0 =>
+      cases hms : mkMatches s names xs with
+      | none => simp [mkMatches, hm, hms] at h
+      | some ms' =>
+        simp [mkMatches, hm, hms] at h
+        subst h
+        intro m hmem
+        rcases List.mem_cons.mp hmem with rfl | hmem
+        · obtain ⟨a, b, rest, rfl⟩ := hall x (List.mem_cons_self ..)
+          subst hnames
+          exact mkMatch_wrapped s zz n0 ns a b rest m hz hns hm
+        · exact ih ms' ⟨hz, ⟨n0, ns, hnames, hns⟩, fun y hy => hall y (List.mem_cons_of_mem _ hy)⟩ hms m hmem
+
+theorem fieldRep_wrapped (zz : Bytes) (m : Match)
+    (h : ∃ c cs, m.captures = c :: cs ∧ c.name = some zz ∧ c.string = some m.string ∧ ∀ x ∈ cs, x.name ≠ some zz) :
+    fieldRep zz (capturesKvs m.captures) = [m.string] := by
+  obtain ⟨c, cs, hcap, hn, hstr, hcs⟩ := h
+  unfold fieldRep
+  rw [capturesKvs_lookup, hcap, show c :: cs = [] ++ c :: cs from rfl, lastNamedFrom_last zz [] c cs none hn hcs, hstr]
+  rfl
 
 end Gojq.Regex
